@@ -9,6 +9,7 @@ git diff -- src > /var/tmp/confirm_$id.diff
 [ -s /var/tmp/confirm_$id.diff ] || { echo "no change applied in $wt"; exit 2; }
 tests=$(tr '\n' ' ' < /var/tmp/prompts/stable_tests.txt)
 rx="^($(paste -sd'|' /var/tmp/prompts/stable_tests.txt))\$"
+sed -i "s# $wt/.git/HEAD # #" _build/build.ninja
 echo "== build with change" | tee -a $log
 ninja -C _build -j8 $tests >> $log 2>&1 || { echo "BUILD FAILED with change"; tail -5 $log; exit 1; }
 echo "== ctest with change" | tee -a $log
